@@ -45,3 +45,8 @@ claim("C03", "DESIGN.md 5 C03",
       "Wire images are generated from the RFC 3550/8285 grammar by an independent reference builder: CSRC count x block kind (none / one-byte / two-byte / legacy) x every item sequence (pad runs 1-3, elements, id-15 terminator + ignored bytes) up to 3 items in full product with payload and RTP padding (incl. non-zero filler), up to 4 (quick) / 5 (thorough) items with reduced other dimensions, x extra pad word. Every image must be accepted and decode to the generating values with the header ending at the end of the block; every accepted input (images and all single-byte mutations of their header region) must re-encode to bytes that decode equal, byte-identical when canonical, or report invalid padding; the three standalone block views must give the same ids/values and re-serialise identically.",
       "Duplicate ids and id-0 bytes with a length nibble are not generated. Two listed known findings (pinned payload start after an id-15 terminator; RawExtension value includes the block header) are matched by exact defect models, anything else is reported.",
       "bounded exhaustive enumeration of grammar-generated inputs against an independent reference encoder/parser (explicit choice-tree DFS on the real code)")
+
+claim("C05", "DESIGN.md 5 C05",
+      "All sequences of SetExtension/DelExtension calls up to depth 3 (quick) / 4 (thorough) over a 62-operation alphabet (7 ids x 8 value lengths incl. the illegal ones, 6 Del ids) from 7 starting states (fresh, three preset profiles, three headers decoded from wire). After every step an ordered-map reference model (stepped by the calls that returned nil) is compared with GetExtensionIDs/GetExtension, a failed call must leave the header unchanged, Marshal must not panic and may fail only for an odd-sized legacy value, and every accepted value must come back unchanged after Marshal/Unmarshal.",
+      "Ids and lengths outside the alphabets and sequences longer than the depth are outside the bound.",
+      "bounded exhaustive enumeration of operation sequences against a reference model (explicit choice-tree DFS on the real code, history replay on fresh instances)")
